@@ -105,7 +105,7 @@ fn new_body(tl: u16) {
     kani::cover!(k == 2);
 }
 
-// @harness props=C20,C08,C09 tier=quick timeout=2400
+// @harness props=C20,C08,C09 tier=thorough timeout=2400
 #[kani::proof]
 #[kani::unwind(50)]
 fn c20_9p_new_tag2() { new_body(2) }
